@@ -58,8 +58,8 @@ class Plan:
     """Generates one history; keeps the bookkeeping the Coq model keeps, to choose arguments
     (existing / new attribute, duplicate name, header nearly full ...) and to emit the Coq op terms."""
 
-    def __init__(self, rng, sb):
-        self.rng, self.sb = rng, sb
+    def __init__(self, rng, sb, pre=False, ai=False):
+        self.rng, self.sb, self.pre, self.ai = rng, sb, pre, ai
         self.ops, self.coq = [], []
         self.objs = {0: dict(kind="group", msgs=[[17, 16]], nent=0, hused=0, nrec=0, attrs=[], children={})}
         self.paths = {"/": 0}
@@ -314,6 +314,8 @@ class Plan:
             return
         o = self.objs[t]
         m = o["msgs"]
+        if self.pre and not self.link(p, name):
+            return                      # checkLinkable refuses before the reference count is touched
         if not any(ty == 22 for ty, _ in m):
             if self.chunk(m) + 8 > 255:
                 return
@@ -348,9 +350,9 @@ def rand_attr(rng, big=0.15):
     return k, bytes(rng.randint(1, 255) for _ in range(KSZ[k]))
 
 
-def gen_history(rng):
+def gen_history(rng, pre=False, ai=False):
     sb = rng.choice([0, 2, 2, 3])
-    P = Plan(rng, sb)
+    P = Plan(rng, sb, pre, ai)
     nobj = rng.randint(2, 6)
     groups, dsets, links = ["/"], [], []
     names = ["a", "b", "c", "d", "e", "g", "x", "y", "data", "a_long_object_name_%d"]
@@ -385,6 +387,9 @@ def gen_history(rng):
             md = None
             if rng.random() < 0.4:
                 md = [rng.choice([UNLIMITED, d, d + 4]) for d in dims]
+            if rng.random() < 0.06:
+                # header with no room for the attribute info message (243 of 255 bytes used)
+                dims, ch, md = [1] * 10, [1] * 10, [rng.choice([1, 3, UNLIMITED]) for _ in range(10)]
             if P.create("chunked", path, dtype=dt, dims=dims, chunk=ch, maxdims=md) is not None:
                 dsets.append(path)
         else:
@@ -595,12 +600,19 @@ def check_go(case, steps):
 # --------------------------------------------------------------------------- model prediction
 
 def repo_cfg():
-    """which configuration of the model corresponds to the tree under test (syntactic fact, cf. DESIGN 4.4)"""
-    try:
-        src = open(os.path.join(vlib.REPO, "link_write.go")).read()
-    except OSError:
-        return "cfg_fixed"
-    return "cfg_fixed" if "linkAddr, err := fw.writer.Allocate(maxObjectHeaderV2Size)" in src else "cfg_repo"
+    """which configuration of the model corresponds to the tree under test (syntactic facts, cf. DESIGN 4.4):
+    link object headers reserved (0d24a11), link pre-check before allocating, attribute-info check before the
+    dense storage is written"""
+    def src(name):
+        try:
+            return open(os.path.join(vlib.REPO, name)).read()
+        except OSError:
+            return ""
+    if "linkAddr, err := fw.writer.Allocate(maxObjectHeaderV2Size)" not in src("link_write.go"):
+        return "cfg_repo"
+    pre = "func (fw *FileWriter) checkLinkable(" in src("group_write.go")
+    ai = bool(re.search(r"if objectHeaderSize > 7\+255 \{", src("attribute_write.go")))
+    return "(gcfg %s %s)" % ("true" if pre else "false", "true" if ai else "false")
 
 
 def parse_trace(flat, nsteps):
@@ -665,7 +677,9 @@ def run_unit(ctx, n=None):
     rng = ctx.rng
     if n is None:
         n = 140 if ctx.tier == "quick" else 2500
-    cases = [gen_history(rng) for _ in range(n)]
+    cfg = repo_cfg()
+    pre, ai = ("gcfg true" in cfg), cfg.endswith("true)")
+    cases = [gen_history(rng, pre, ai) for _ in range(n)]
     scratch = vlib.scratch()
     payload = [dict(sb=c["sb"], ops=c["ops"], dir=scratch) for c in cases]
     results = vlib.run_harness_parallel(ctx.harness, "c04unit", payload)
@@ -694,7 +708,6 @@ def run_unit(ctx, n=None):
             v["impl"] = steps[i + 1] if 0 <= i + 1 < len(steps) else None
             violations.append(v)
     # model prediction (diagnostics only)
-    cfg = repo_cfg()
     diverging = 0
     try:
         good = [(c, r["steps"]) for c, r in zip(cases, results) if "steps" in r]
@@ -736,6 +749,19 @@ if __name__ == "__main__":   # manual run: python3 tools/props/c04unit.py [n]
         res = run_unit(ctx, int(sys.argv[1]) if len(sys.argv) > 1 else None)
     finally:
         vlib.cleanup()
-    print(json.dumps(dict(violations=res["violations"][:5], nviol=len(res["violations"]), evaluations=res["evaluations"],
-                          distinct=res["distinct"], samples=res["samples"]), indent=1)[:12000])
+    print("c04unit: evaluations=%d distinct=%d violations=%d model_divergent_histories=%s cfg=%s" % (
+        res["evaluations"], res["distinct"], len(res["violations"]), res.get("model_divergent_histories"), res.get("model_cfg")))
+    kinds = {}
+    for v in res["violations"]:
+        kinds[v["what"][:3]] = kinds.get(v["what"][:3], 0) + 1
+    print("  violation classes:", kinds)
+    for v in res["violations"][:3]:
+        print("  VIOLATION", v["what"])
+        print("     sb=%s step=%s history=%s" % (v["case"]["sb"], v.get("step"),
+              [(o["op"], o.get("path", "")) for o in v["case"]["ops"]][-6:]))
+    for smp in res["samples"]:
+        if smp["kind"].startswith("fidelity"):
+            print("  DIAG", json.dumps(smp["first"])[:400])
+        elif smp["kind"] == "distribution":
+            print("  DIST", json.dumps(smp)[:600])
     sys.exit(1 if res["violations"] else 0)
